@@ -1,0 +1,49 @@
+//go:build verif
+
+// Contracts for package migrations (comment-only; compiled only with -tags verif).
+package migrations
+
+//@ func migrations.MigrateChannelState2To3 {C13}
+//@   requires oldChannelState != nil
+//@   ensures [ok] err == nil && result0 != nil && untouched
+//@   ensures [SelfPeer] (*result0).SelfPeer == (*oldChannelState).SelfPeer
+//@   ensures [TransferID] (*result0).TransferID == (*oldChannelState).TransferID
+//@   ensures [Initiator] (*result0).Initiator == (*oldChannelState).Initiator
+//@   ensures [Responder] (*result0).Responder == (*oldChannelState).Responder
+//@   ensures [BaseCid] (*result0).BaseCid == (*oldChannelState).BaseCid
+//@   ensures [Selector] (*result0).Selector == (*oldChannelState).Selector
+//@   ensures [Sender] (*result0).Sender == (*oldChannelState).Sender
+//@   ensures [Recipient] (*result0).Recipient == (*oldChannelState).Recipient
+//@   ensures [TotalSize] (*result0).TotalSize == (*oldChannelState).TotalSize
+//@   ensures [Queued] (*result0).Queued == (*oldChannelState).Queued
+//@   ensures [Sent] (*result0).Sent == (*oldChannelState).Sent
+//@   ensures [Received] (*result0).Received == (*oldChannelState).Received
+//@   ensures [Message] (*result0).Message == (*oldChannelState).Message
+//@   ensures [Vouchers] seqEq((*result0).Vouchers, (*oldChannelState).Vouchers)
+//@   ensures [VoucherResults] seqEq((*result0).VoucherResults, (*oldChannelState).VoucherResults)
+//@   ensures [ReceivedBlocksTotal] (*result0).ReceivedBlocksTotal == (*oldChannelState).ReceivedBlocksTotal
+//@   ensures [SentBlocksTotal] (*result0).SentBlocksTotal == (*oldChannelState).SentBlocksTotal
+//@   ensures [QueuedBlocksTotal] (*result0).QueuedBlocksTotal == (*oldChannelState).QueuedBlocksTotal
+//@   ensures [DataLimit] (*result0).DataLimit == (*oldChannelState).DataLimit
+//@   ensures [RequiresFinalization] (*result0).RequiresFinalization == (*oldChannelState).RequiresFinalization
+//@   ensures [Stages] (*result0).Stages == (*oldChannelState).Stages
+//@   ensures [status] (*result0).Status == (((*oldChannelState).Status == datatransfer.InitiatorPaused || (*oldChannelState).Status == datatransfer.ResponderPaused ||
+//@       (*oldChannelState).Status == datatransfer.BothPaused) ? datatransfer.Ongoing : (*oldChannelState).Status)
+//@   ensures [ip] (*result0).InitiatorPaused == ((*oldChannelState).Status == datatransfer.InitiatorPaused || (*oldChannelState).Status == datatransfer.BothPaused)
+//@   ensures [rp] (*result0).ResponderPaused == ((*oldChannelState).Status == datatransfer.ResponderPaused || (*oldChannelState).Status == datatransfer.BothPaused)
+//@   ensures [input-unchanged] *oldChannelState == old(*oldChannelState)
+
+//@ func migrations.NoOpChannelState0To2 {C13}
+//@   ensures [identity] result0 == oldChannelState && err == nil && untouched
+
+//@ extern func github.com/filecoin-project/go-ds-versioning/pkg/versioned.NewVersionedBuilder
+//@   ensures result != nil
+//@ extern func (github.com/filecoin-project/go-ds-versioning/pkg/versioned.Builder).OldVersion
+//@   ensures result != nil
+
+//@ func migrations.GetChannelStateMigrations {C13}
+//@   ensures [list] seq(NewVersionedBuilder, NewVersionedBuilder, Builder.OldVersion, BuilderList.Build) &&
+//@       called(NewVersionedBuilder, NoOpChannelState0To2, "2") && called(NewVersionedBuilder, MigrateChannelState2To3, "3") &&
+//@       all(Builder.OldVersion, $1 == "2")
+
+//@ coverage [v2-codec] {C13,C06}: ChannelStateV2
